@@ -93,6 +93,13 @@ def run(rep: Report, tier: str) -> None:
     if by_key:
         yv, tsv = per_year.target.id, f"{dname}[{per_year.target.id}]"
         rep.check(not any(isinstance(n, ast.Name) and n.id == yv and isinstance(n.ctx, ast.Store) for st_ in per_year.body for n in ast.walk(st_)), ra, JP, ga.qualname, "the loop's year is not rebound inside the loop", f"'{yv}' is assigned inside the per-year loop: the group read back through it is no longer the group of the iteration", loc(per_year))
+    # the group handed over through a local that is bound to it inside the loop and sorted in place by time before the call
+    tl = kw.get("transaction_list")
+    if calls and tl and tl.isidentifier() and tl != tsv:
+        binds = [s_ for s_ in per_year.body if isinstance(s_, (ast.Assign, ast.AnnAssign)) and getattr(s_, "value", None) is not None and unparse(s_.target if isinstance(s_, ast.AnnAssign) else s_.targets[0]) == tl]
+        sorts = [s_ for s_ in per_year.body if isinstance(s_, ast.Expr) and isinstance(s_.value, ast.Call) and unparse(s_.value.func) == f"{tl}.sort" and not s_.value.args and [unparse(k.value) for k in s_.value.keywords if k.arg == "key"] in (["lambda x: x.timestamp"], ["attrgetter('timestamp')"], ["operator.attrgetter('timestamp')"]) and not any(k.arg == "reverse" for k in s_.value.keywords)]
+        if len(binds) == 1 and len(sorts) == 1 and unparse(binds[0].value) in (tsv, f"list({tsv})") and binds[0].lineno < sorts[0].lineno < calls[0].lineno:
+            kw["transaction_list"] = f"sorted({tsv}, key=lambda x: x.timestamp)"
     ok = kw.get("asset") == "asset" and kw.get("year") == yv and kw.get("transaction_list") in (f"sorted({tsv}, key=lambda x: x.timestamp)", f"sorted({tsv}, key=attrgetter('timestamp'))", f"sorted({tsv}, key=operator.attrgetter('timestamp'))", f"list({tsv})") and kw.get("output_file") == "output_file"
     rep.check(ok, ra, JP, ga.qualname, "the call receives this group's year and its transactions sorted by time", f"per-year call arguments: {kw}", loc(calls[0]) if calls else loc(per_year))
     # per-year writer: template copied once under the name builder, rows
